@@ -1,4 +1,6 @@
 #!/bin/sh
 # usage: tools/coqmake.sh Props/Cxx.vo Corr/Cxx_run.vo ...   (serialised with other builders)
+# each coqc is limited to 12 GB of address space and the whole build to COQ_TIMEOUT (default 900 s):
+# a proof that needs more is a runaway vm_compute/lia and must be restructured.
 cd "$(dirname "$0")/.."
-exec flock .coq.lock sh -c 'tools/mkcoq.sh && cd coq && timeout ${COQ_TIMEOUT:-1800} make -j8 "$@"' sh "$@"
+exec flock .coq.lock sh -c 'ulimit -v 12000000; tools/mkcoq.sh && cd coq && timeout ${COQ_TIMEOUT:-900} make -j8 "$@"' sh "$@"
